@@ -16,11 +16,11 @@ pub struct Case {
 }
 
 pub fn decode(bytes: &[u8]) -> Case {
-    let mut s = Stream::new(bytes);
-    let cfg = if s.chance(64) { GenCfg::medium() } else { GenCfg::small() };
+    let (mut h, mut s) = crate::stream::split(bytes, 96);
+    let cfg = if h.chance(64) { GenCfg::medium() } else { GenCfg::small() };
     let g = gen_game(&mut s, &cfg);
     let info = Info::of(&g.tree);
-    let prof = gen_profile(&mut s, &info);
+    let prof = gen_profile(&mut h, &info);
     Case {
         tree: g.tree,
         family: g.family,
@@ -182,5 +182,6 @@ pub fn prop() -> Prop {
         ],
         post: None,
         watchdog_s: 60,
+        shrink_iters: 3000,
     }
 }
